@@ -299,6 +299,8 @@ func init() {
 		x.nearMissBlocks(fns)
 		x.siblingDecoys(fns)
 		x.straddleSS(fns)
+		x.kelvinTails(fns)
+		x.offsetNeighbours(fns)
 		x.nonLetterHead(fns)
 		x.specialPairContexts(fns)
 		x.pairsFor(fns, valid, 120000*x.scale)
@@ -327,6 +329,7 @@ func init() {
 		}
 		x.bytePairBlocks(fns)
 		x.offsetNeighbours(fns)
+		x.truncatedInPlace(fns)
 		x.specialPairContexts(fns)
 		x.pairsFor(fns, both, 60000*x.scale)
 		x.equalPairs(fns, both, 60000*x.scale)
@@ -337,6 +340,7 @@ func init() {
 		x.aliasedViews(fns)
 		x.bytePairBlocks(fns)
 		x.offsetNeighbours(fns)
+		x.truncatedInPlace(fns)
 		x.specialPairContexts(fns)
 		x.pairsFor(fns, both, 50000*x.scale)
 		x.equalPairs(fns, both, 50000*x.scale)
@@ -344,6 +348,8 @@ func init() {
 	}
 	props["C06"] = func(x *Ctx) {
 		x.aliasedViews(allSS)
+		x.kelvinTails(allSS)
+		x.truncatedInPlace(allSS)
 		x.ratioSweep(allSS, true)
 		x.pairsFor(allSS, ill, 12000*x.scale)
 		x.affixFor(allSS, ill, 6000*x.scale)
@@ -359,6 +365,8 @@ func init() {
 	props["C07"] = func(x *Ctx) {
 		x.aliasedViews(allSS)
 		x.nonLetterHead(allSS)
+		x.kelvinTails(allSS)
+		x.truncatedInPlace(allSS)
 		x.ratioSweep(allSS, true)
 		x.pairsFor(allSS, both, 12000*x.scale)
 		x.affixFor(allSS, both, 6000*x.scale)
@@ -379,6 +387,8 @@ func init() {
 		x.nearMissBlocks(fns)
 		x.siblingDecoys(fns)
 		x.straddleSS(fns)
+		x.kelvinTails(fns)
+		x.offsetNeighbours(fns)
 		x.nonLetterHead(fns)
 		x.specialPairContexts(fns)
 		x.pairsFor(fns, valid, 150000*x.scale)
@@ -391,6 +401,8 @@ func init() {
 		x.nearMissBlocks(fns)
 		x.bytePairBlocks(fns)
 		x.fffdBait(fns)
+		x.kelvinTails(fns)
+		x.offsetNeighbours(fns)
 		x.nonLetterHead(fns)
 		x.specialPairContexts(fns)
 		x.affixFor(fns, valid, 60000*x.scale)
@@ -451,6 +463,7 @@ func init() {
 		x.hashCollisions(fns)
 		x.siblingDecoys(fns)
 		x.straddleSS(fns)
+		x.kelvinTails(fns)
 		x.nonLetterHead(fns)
 		x.specialPairContexts(fns)
 		for _, c := range "KkSsaZ1" { // single byte needles
@@ -463,6 +476,8 @@ func init() {
 	}
 	props["C15"] = func(x *Ctx) {
 		x.aliasedViews(allSS)
+		x.truncatedInPlace(allSS)
+		x.kelvinTails(allSS)
 		x.ratioSweep(allSS, true)
 		x.pairsFor(allSS, ill, 12000*x.scale)
 		x.affixFor(allSS, ill, 6000*x.scale)
@@ -701,6 +716,12 @@ func (x *Ctx) offsetNeighbours(fns []string) {
 			if n%64 == 0 { // inside longer strings too
 				for _, fn := range fns {
 					x.eval(&Case{Fn: fn, S: append(append([]byte("ab"), a...), 'z'), T: append(append([]byte("AB"), b...), 'Z')}, false)
+				}
+			}
+			if n%4 == 0 { // as the last / first code point of a longer argument (suffix and prefix loops, multi-rune needles)
+				for _, fn := range fns {
+					x.eval(&Case{Fn: fn, S: append([]byte("3"), a...), T: append([]byte("3"), b...)}, false)
+					x.eval(&Case{Fn: fn, S: append(append([]byte{}, a...), "4"...), T: append(append([]byte{}, b...), "4"...)}, false)
 				}
 			}
 			n++
@@ -1209,6 +1230,75 @@ func (x *Ctx) nonLetterHead(fns []string) {
 		}
 	}
 	x.note("long non-letter heads (1..64 bytes) before a folding tail: %d cases", n)
+}
+
+// kelvinTails: needles made of a first code point of each encoded width (cased pairs of different widths included)
+// followed by 1..6 Kelvin signs, long s or literal U+FFFD — the code points that are up to three times wider than what
+// they match — against haystacks that spell them narrowly, with the match at the very end, at the start, and with the
+// needle's first code point occurring only near the end of a haystack much shorter than the needle (the bounds of the
+// brute-force search are computed from len(needle)/3)
+func (x *Ctx) kelvinTails(fns []string) {
+	firsts := [][2]string{{"1", "1"}, {"a", "A"}, {"\u00e9", "\u00c9"}, {"\u023a", "\u2c65"}, {"\u4e16", "\u4e16"}, {"\U00010400", "\U00010428"}, {"\U0001F600", "\U0001F600"}}
+	wides := [][2]string{{"\u212a", "k"}, {"\u212a", "K"}, {"\u017f", "s"}, {"\ufffd", "\xff"}}
+	n := 0
+	for _, f := range firsts {
+		for _, w := range wides {
+			for j := 1; j <= 6; j++ {
+				nd := []byte(f[0] + strings.Repeat(w[0], j))
+				narrow := f[1] + strings.Repeat(w[1], j)
+				for _, hs := range []string{narrow, "x" + narrow, narrow + "x", "xxxxxxxxxxxxxxxxxxxx" + narrow, narrow[:len(narrow)-1], "x" + narrow[:len(narrow)-1] + "y"} {
+					for _, fn := range fns {
+						x.eval(&Case{Fn: fn, S: []byte(hs), T: nd}, n%37 == 0)
+						n++
+					}
+				}
+			}
+		}
+	}
+	// the first code point of a long wide needle occurring only near the end of a short haystack
+	for _, head := range []string{"123", "12", "1\u4e16", "\u4e16\u754c"} {
+		for j := 1; j <= 8; j++ {
+			for _, w := range []string{"\u212a", "\ufffd", "\u017f"} {
+				nd := []byte(head + strings.Repeat(w, j))
+				first := string([]rune(head)[0])
+				for _, hs := range []string{"xxx" + first, "x" + first, first, "xxxxxx" + first + "x", "xxx" + head} {
+					for _, fn := range fns {
+						x.eval(&Case{Fn: fn, S: []byte(hs), T: nd}, false)
+						n++
+					}
+				}
+			}
+		}
+	}
+	x.note("wide tails (Kelvin / long s / U+FFFD runs behind first code points of every width): %d cases", n)
+}
+
+// truncatedInPlace: one argument holds a multi-byte sequence cut short IN PLACE (followed by a starter byte) where the
+// other holds the complete sequence, behind 0..24 bytes of shared prefix — every offset, so that a comparison that
+// skips identical bytes in blocks and then looks for a code-point boundary in ONE argument only is caught resuming
+// inside a code point of the other
+func (x *Ctx) truncatedInPlace(fns []string) {
+	runes := []string{"\u212a", "\u00e9", "\u4e16", "\U0001F600", "\ufffd"}
+	n := 0
+	for off := 0; off <= 24; off++ {
+		pad := strings.Repeat("a", off)
+		for _, r := range runes {
+			for cut := 1; cut < len(r); cut++ {
+				for _, next := range []string{"z", "\xff\xff", "\u00e9", ""} {
+					a := []byte(pad + r[:cut] + next)
+					for _, tl := range []string{"z", "", "\u00e9"} {
+						b := []byte(pad + r + tl)
+						for _, fn := range fns {
+							x.eval(&Case{Fn: fn, S: a, T: b}, false)
+							x.eval(&Case{Fn: fn, S: b, T: a}, false)
+							n += 2
+						}
+					}
+				}
+			}
+		}
+	}
+	x.note("sequences truncated in place against the complete sequence, at every offset 0..24: %d cases", n)
 }
 
 // fffdBait: a literal U+FFFD in one argument opposite a multi-byte code point in the other, behind (or in
